@@ -28,7 +28,9 @@ def run(ctx):
              "decoder in stream c16wire): 25 classes, 17 content-preserving, 8 that must be rejected or change the content. Core: one tx of every "
              "outcome class {code 0; ante reject auth/<10; ante reject in the root codespace (sdk/4); handler failure after the fee with a ROOT code < 10 "
              "(DAO transfer / burn by a non-owner); handler failure with a module code (pos, gov); root code >= 10 (sdk/10)} and the identical bytes "
-             "again in the next block and the block after; then for each class "
+             "again in the next block and the block after; blocks that end with / contain an ante-level rejection next to executed txs — "
+             "[T,U] [U,T] [T,U,T'] [T,U,U] for U = signer that cannot pay (auth/6), over-long memo (auth/1), in-block duplicate (auth/6) — and "
+             "every executed T again byte for byte in the next two blocks; then for each class "
              "original + variant + original again in one block, and original in one block then variant + original in the next. Random: 30% "
              "unchanged resubmissions and 30% re-encodings of any of the last 400 byte strings (also of failed ones and of variants), rest fresh "
              "txs (15 message kinds, 8% signature and fee defects), blocks of 1-4 txs. non-trivial = the real ante handler passed; distinct = "
